@@ -19,11 +19,50 @@ var termCountRe = regexp.MustCompile(`(^|\.)(len\([A-Za-z_.φ0-9\[\]]*\.Terminal
 func ruleBOUNDARY(c *Ctx, pkgs ...string) {
 	const rule = "BOUNDARY(terminals)"
 	n := 0
-	isT := func(s string) bool {
+	isT0 := func(s string) bool {
 		return termCountRe.MatchString(s) && !strings.Contains(s, " - ") && !strings.Contains(s, " + ")
 	}
 	for _, rel := range pkgs {
+		// locals that only ever hold the terminal count (terms := len(m.Terminals)), visible in
+		// the function that declares them and, as free variables, in its closures
+		alias := map[*ssa.Function]map[string]bool{}
 		for _, f := range c.SrcFuncs(rel) {
+			for _, b := range f.Blocks {
+				for _, ins := range b.Instrs {
+					al, ok := ins.(*ssa.Alloc)
+					if !ok || al.Comment == "" || al.Referrers() == nil {
+						continue
+					}
+					stores, all := 0, true
+					for _, ref := range *al.Referrers() {
+						if st, ok := ref.(*ssa.Store); ok && st.Addr == ssa.Value(al) {
+							stores++
+							if !isT0(vpath(st.Val)) {
+								all = false
+							}
+						}
+					}
+					if stores > 0 && all {
+						if alias[f] == nil {
+							alias[f] = map[string]bool{}
+						}
+						alias[f][al.Comment] = true
+					}
+				}
+			}
+		}
+		for _, f := range c.SrcFuncs(rel) {
+			isT := func(s string) bool {
+				if isT0(s) {
+					return true
+				}
+				for g := f; g != nil; g = g.Parent() {
+					if alias[g][s] {
+						return true
+					}
+				}
+				return false
+			}
 			ord := map[string]int{}
 			for _, b := range f.Blocks {
 				for _, ins := range b.Instrs {
